@@ -315,8 +315,12 @@ theorem toWire_pad_no_tsig (m : Message) (lim : Nat) (pt : Bool) (w : Bytes) (o 
     obtain ⟨hi, _, _⟩ := renderSections_inv m _ _ _ _ r hr
     unfold finishOut RState.finish at h
     simp only [hopt, hts] at h
-    unfold RState.addOpt at h
-    simp only [hpad, ne_eq, not_false_eq_true, if_true] at h
+    by_cases hg : padLen r.releaseReserved.out.length m.pad m.optReserve 0 > 65535
+    · unfold RState.addOpt at h
+      simp only [hpad, hg, ne_eq, not_false_eq_true, and_self, if_true, stepToExcept] at h
+      simp at h
+    unfold RState.addOpt RState.addOptCore at h
+    simp only [hpad, hg, ne_eq, not_false_eq_true, and_false, if_false, if_true] at h
     cases ha : ({ r.releaseReserved with wasPadded := true } : RState).addRRset ConstsC03.secADDITIONAL
         (optRRset { o with options := o.options ++ [(ConstsC03.optPADDING,
           if (r.releaseReserved.out.length + m.optReserve + 0) % m.pad ≠ 0
@@ -397,7 +401,8 @@ theorem addOpt_pad_length (r : RState) (hk : KeysLong r.tbl) (o : EOpt) (pad a b
     (ha : a = 11 + (o.options.map fun p => p.2.length + 4).sum + 4)
     (h : stepToExcept (r.addOpt o pad a b) = .ok r5) :
     (r5.out.length + b) % pad = 0 ∧ r.out.length ≤ r5.out.length := by
-  unfold RState.addOpt at h
+  replace h := addOpt_core_of_ok h
+  unfold RState.addOptCore at h
   simp only [hpad, ne_eq, not_false_eq_true, if_true] at h
   cases hs : ({ r with wasPadded := true } : RState).addRRset ConstsC03.secADDITIONAL
       (optRRset { o with options := o.options ++ [(ConstsC03.optPADDING,
